@@ -10,11 +10,12 @@
       panicking teardowns: `teardown_tree`, `teardown_every_subset`, `teardown_flat`;
   (2) that tree is the right model for a set-up is read from the operator's code
       (RoModel/Drivers/Cut.lean `setupTree`) and compared with the running code on every run
-      (kind `teardown`); `setups_isolated` decides that every set-up tree but the two listed ones
-      is in the domain of (1);
-  (3) pinned tree: `ObserveOn`/`SubscribeOn` (detachOn) and `ThrowOnContextCancel` release their
-      goroutine in the same closure as, and after, the upstream `Unsubscribe`, without isolation:
-      `closure_skips_witness` — known findings, replayed by the check;
+      (kind `teardown`); `setups_isolated` decides that EVERY set-up tree the driver uses is in the
+      domain of (1) — no exception since fix 694a874;
+  (3) `ObserveOn`/`SubscribeOn` (detachOn), `ThrowOnContextCancel` and `ToChannel` release their
+      goroutine / channel in a deferred action of the teardown closure (fix 694a874; before it the
+      release followed the upstream `Unsubscribe` unisolated and a panicking teardown skipped it):
+      `deferred_release` — the release runs and the panic still reaches the caller;
   (4) release: `released`, `released_from_inside` (machines; the facts that make the model apply
       to an operator are decided in RoProps/C14.lean `table_ok`).
 -/
@@ -31,7 +32,7 @@ theorem teardown_tree (fs : List Fin) (hc : Fin.closureFreeL fs = true) :
 
 theorem teardown_every_subset (fs : List Fin) (hc : Fin.closureFreeL fs = true) (pan : Nat → Option Err) :
     normalize (unsubscribe (Fin.assignL pan fs)) =
-      (Fin.idsL fs, if (Fin.idsL fs).filterMap pan = [] then none else some ((Fin.idsL fs).filterMap pan)) :=
+      (Fin.idsL fs, if (Fin.uidsL fs).filterMap pan = [] then none else some ((Fin.uidsL fs).filterMap pan)) :=
   unsubscribe_assign fs hc pan
 
 /-- one subscription, user teardowns only: the exact value raised -/
@@ -47,8 +48,8 @@ theorem teardown_quiet (fs : List Fin) (h : Fin.panicsL fs = []) : unsubscribe f
   unsubscribe_quiet fs h
 
 /-- the set-ups whose teardown closure performs a second release after the upstream Unsubscribe
-    without isolating it (pinned tree) -/
-def knownUnisolated : List (String × String) := [("leak", "ObserveOn"), ("leak", "ThrowOnContextCancel")]
+    without isolating it: none (ObserveOn and ThrowOnContextCancel were, before fix 694a874) -/
+def knownUnisolated : List (String × String) := []
 
 def allSetups : List (String × String) :=
   [("plain", ""), ("tapAbove", ""), ("tapBelow", ""), ("merge", ""), ("merge3", ""), ("takeUntil", ""), ("combineLatest", ""),
@@ -56,17 +57,20 @@ def allSetups : List (String × String) :=
    ("leak", "BufferWithTime"), ("leak", "BufferWithTimeOrCount"), ("leak", "SampleTime"), ("leak", "ThrottleTime"),
    ("leak", "TakeUntilInterval"), ("leak", "MergeWithInterval")]
 
-/-- every modelled set-up tree is in the domain of `teardown_tree`, except exactly the listed ones -/
+/-- every set-up tree the driver uses (`setupTree`, all set-ups and both kinds of ending) is in the
+    domain of `teardown_tree`: none contains an unisolated multi-action closure. This is a statement
+    about the MODELLED set-ups only — the teardown closures of `GroupBy` and `ShareWithConfig`
+    (release after `sub.Unsubscribe()`, not observable as a library goroutine) are not among them. -/
 theorem setups_isolated :
     allSetups.all (fun s => ["unsub", "complete"].all (fun e =>
       match setupTree s.1 e s.2 with
       | none => true
       | some t => Fin.closureFreeL t == !(knownUnisolated.contains s))) = true := by decide
 
-theorem closure_skips_witness :
-    (unsubscribe [.closure [.sub [.sub [.leaf 1 (some (.user 5))]], .leaf 90 none]]).1 = [1] ∧
-    (unsubscribe [.sub [.sub [.sub [.leaf 1 (some (.user 5))]], .leaf 90 none]]).1 = [1, 90] :=
-  Ro.closure_skips_witness
+/-- a deferred release runs although the teardown below it panics, and the panic reaches the caller -/
+theorem deferred_release :
+    normalize (unsubscribe [.deferred (.sub [.sub [.leaf 1 (some (.user 5))]]) [90]]) = ([1, 90], some [.user 5]) :=
+  Ro.deferred_runs_release
 
 /-- closed downstream ⇒ the source is released (hot source, every machine, every script) -/
 theorem released {σ α β : Type} (m : Machine σ α β) (sub : Ctx) (raw : List (Notif α)) (hs : m.subscribes = true) :
@@ -95,6 +99,6 @@ end Ro.C03op
 #print axioms Ro.C03op.teardown_flat
 #print axioms Ro.C03op.teardown_quiet
 #print axioms Ro.C03op.setups_isolated
-#print axioms Ro.C03op.closure_skips_witness
+#print axioms Ro.C03op.deferred_release
 #print axioms Ro.C03op.released
 #print axioms Ro.C03op.released_from_inside
